@@ -1142,6 +1142,19 @@ func (c *Ctx) secretEntropy(rule string) {
 		name := FuncName(fn)
 		for _, call := range Calls(fn) {
 			cn := Callee(call)
+			// an encoder that writes more bytes than it reads must not write into
+			// the storage it is still reading: the output overwrites input not yet
+			// consumed and the result depends on a fraction of the secret only
+			if cn == "(*encoding/base64.Encoding).Encode" || cn == "encoding/hex.Encode" {
+				di, si := 1, 2
+				if cn == "encoding/hex.Encode" {
+					di, si = 0, 1
+				}
+				if d, sr := entropyBufRoot(Arg(call, di)), entropyBufRoot(Arg(call, si)); d != nil && d == sr {
+					r.Bad(rule, name, "encode in place", posf(c, call), "the value is encoded into the buffer it is read from ("+SafeString(d)+"): the encoder overwrites bytes it has not read yet, so the encoded secret depends on only part of the random bytes")
+				}
+				continue
+			}
 			if strings.HasPrefix(cn, "math/rand.") || strings.HasPrefix(cn, "(*math/rand.Rand).") || strings.HasPrefix(cn, "math/rand/v2.") {
 				ok := pkgOf(fn) == "ab/defaults" && strings.Contains(name, "SMTPMailer")
 				r.Check(ok, rule, name, cn, posf(c, call), "math/rand only for the MIME boundary", "math/rand is used outside the SMTP mailer's MIME boundary: values drawn from it are predictable and must not become tokens, codes or nonces")
@@ -1205,6 +1218,16 @@ func (c *Ctx) secretEntropy(rule string) {
 			n++
 			r.Check(g.Pkg.Pkg.Path() == "crypto/rand" && g.Name() == "Reader", rule, name, "entropy source", posf(c, call), "crypto/rand.Reader", "the secret is not drawn from crypto/rand.Reader but from "+g.Pkg.Pkg.Path()+"."+g.Name())
 			if strings.HasPrefix(cn, "io.Read") {
+				// the bytes are drawn into storage this call allocated: a buffer that
+				// outlives the call (package variable, field, pool) hands the bytes of
+				// one secret out again as part of another unless its bookkeeping is
+				// exactly right, which is arithmetic this rule cannot see
+				switch root := entropyBufRoot(Arg(call, 1)).(type) {
+				case *ssa.Alloc, *ssa.MakeSlice, *ssa.Parameter:
+					r.Ok(rule, name, "entropy buffer", posf(c, call), "drawn into a buffer of this call")
+				default:
+					r.Bad(rule, name, "entropy buffer", posf(c, call), "the entropy is read into storage that outlives the call ("+SafeString(root)+"): the same random bytes can become part of more than one secret")
+				}
 				k, _ := c.errHandling(call)
 				okE := k == "returned"
 				why := "error is " + k
@@ -2064,4 +2087,26 @@ func (c *Ctx) assertAfterErrCheck(rule string) {
 		}
 	}
 	r.Extra["asserts_on_loaded_values"] = n
+}
+
+// entropyBufRoot: the storage a byte slice handed to an entropy read points into.
+func entropyBufRoot(v ssa.Value) ssa.Value {
+	for d := 0; d < 10; d++ {
+		v = stripConv(v)
+		switch x := v.(type) {
+		case *ssa.Slice:
+			v = x.X
+			continue
+		case *ssa.FieldAddr:
+			if _, ok := stripConv(x.X).(*ssa.Alloc); ok {
+				v = x.X // field of a local struct
+				continue
+			}
+		case *ssa.IndexAddr:
+			v = x.X
+			continue
+		}
+		break
+	}
+	return v
 }
